@@ -12,11 +12,66 @@ NOTE_COMMON = ('Trusted base: Lean 4.33.0 kernel; axioms propext / Classical.cho
 
 # pid -> (technique, level text, design ref, level note)
 CLAIMED = {
-    'C01': ('Lean 4 theorems about the matcher model + differential correspondence PY select/match = model',
-            'Theorems in lean/SoupVerif/Properties/C01.lean hold for every tree, selector IR and call target (no bound). '
-            'The model is hand-written; it is tied to /repo on every run by running sv.select/match and the compiled Lean '
-            'model on the same generated (document, selector, target) cases and comparing the returned element paths.',
+    'C01': ('Lean 4 theorems (match_eq_sat, select_exact: matcher model = CSS specification for every tree and selector of the grammar) + differential correspondence PY = model',
+            'Properties/C01*.lean prove, for every finite tree and every selector AST of the stated grammar (any nesting), that the IR the parser builds is matched by the matcher model exactly when an independently written CSS specification (quantifiers over parent / ancestor / sibling / descendant element sets, string predicates for the attribute operators incl. the regex templates) says so, that select returns exactly those descendants in document order, that the document object is never a parent/ancestor and that empty ^= $= *= match nothing. The model is tied to /repo on every run: data (regexes, built-in selector lists, tables, class/wrapper/import/effect facts) is regenerated from the source by gen/*.py so the theorems are re-checked against it, and the hand-written model is run by the compiled Lean driver on the same generated inputs as the real library and the outputs are compared. Correspondence: select/match on generated (document, selector, target) cases, IR equality of rendered ASTs.',
             'DESIGN.md §3 C01', NOTE_COMMON),
+    'C02': ('Lean 4 theorem matchOne_iff (three-loop model of match_nth = exists n>=0: A*n+B = position, all integers A,B, all walks) + brute-force oracle sweep + correspondence',
+            'Properties/C02.lean proves for the loop-for-loop model of match_nth, all integers A and B, all sibling walks with any interleaving of uncounted nodes, that the element matches iff some n >= 0 gives A*n+B = its 1-based position among counted siblings; uncounted nodes are irrelevant; keyword forms coincide. The model is tied to /repo on every run: data (regexes, built-in selector lists, tables, class/wrapper/import/effect facts) is regenerated from the source by gen/*.py so the theorems are re-checked against it, and the hand-written model is run by the compiled Lean driver on the same generated inputs as the real library and the outputs are compared. The real select is also compared with a brute-force exists-n oracle over all sibling sequences up to a length.',
+            'DESIGN.md §3 C02', NOTE_COMMON),
+    'C03': ('Lean 4 theorems about the API model (select = filter of pre-order descendants, limit = take, select_one = head?, closest = find? on ancestors, filter, scope) + generated wrapper-forwarding facts by decide + correspondence',
+            'Properties/C03.lean and C03Wrappers.lean prove the entry-point relations for every selector, tree, target and limit on the model (no duplicates, document order, never the target, never the document), and, on data regenerated from __init__.py, that all six module-level functions forward pattern, namespaces, flags and custom= to compile and call the same-named method. The model is tied to /repo on every run: data (regexes, built-in selector lists, tables, class/wrapper/import/effect facts) is regenerated from the source by gen/*.py so the theorems are re-checked against it, and the hand-written model is run by the compiled Lean driver on the same generated inputs as the real library and the outputs are compared. The relations are additionally evaluated on the real entry points.',
+            'DESIGN.md §3 C03', NOTE_COMMON),
+    'C04': ('Lean 4 theorems: memo tables as a state machine, invariant + transparency + history independence by induction over query lists; correspondence of the memoised functions and call histories',
+            'Properties/C04.lean models the three per-call memo tables (meta language, default forms, indeterminate groups) as a state machine and proves, for every list of queries, that each answer equals the pure answer (invariant preserved by every step); the side condition for radio groups is discharged from the guard of the generated built-in selector. Non-mutation is structural in the model; on the real code serialisation, attrs and node identities are compared before/after. The model is tied to /repo on every run: data (regexes, built-in selector lists, tables, class/wrapper/import/effect facts) is regenerated from the source by gen/*.py so the theorems are re-checked against it, and the hand-written model is run by the compiled Lean driver on the same generated inputs as the real library and the outputs are compared. ',
+            'DESIGN.md §3 C04', NOTE_COMMON),
+    'C05': ('Lean 4 theorems on the IR for the whole grammar (list union, negation = complement, sub-list = conjunction, monotonicity, HTML-only context local to its list) + Boolean laws evaluated on PY + correspondence',
+            'Properties/C05.lean proves the Boolean laws of selector lists at IR level, hence for every pseudo-class, namespace form and custom alias, every tree and context. The model is tied to /repo on every run: data (regexes, built-in selector lists, tables, class/wrapper/import/effect facts) is regenerated from the source by gen/*.py so the theorems are re-checked against it, and the hand-written model is run by the compiled Lean driver on the same generated inputs as the real library and the outputs are compared. The laws are also evaluated on the real select for generated pairs from the whole grammar on html/html5/xhtml/xml documents with iframes and foreign content.',
+            'DESIGN.md §3 C05', NOTE_COMMON),
+    'C06': ('Lean 4 theorems about the parser model driven by the regenerated token regexes (token progress from non-nullability, fuel independence, compile_no_pybug, error offsets in range, unescape never yields an invalid code point) + outcome correspondence on exhaustive short strings and mutations',
+            'Properties/C06.lean proves for every pattern and custom map that the parser model returns a selector list or one of the documented error kinds, never an internal failure, with every error offset inside the pattern; token regexes regenerated from the source are shown non-nullable by kernel evaluation. The model is tied to /repo on every run: data (regexes, built-in selector lists, tables, class/wrapper/import/effect facts) is regenerated from the source by gen/*.py so the theorems are re-checked against it, and the hand-written model is run by the compiled Lean driver on the same generated inputs as the real library and the outputs are compared. Outcome correspondence (same IR or same raise site, line, column, context) on all strings up to a length over a 35-symbol alphabet, truncations, mutations, boundary escapes and custom maps.',
+            'DESIGN.md §3 C06', NOTE_COMMON),
+    'C07': ('PARTIAL: Lean 4 theorems all_safe (decidable unambiguity check on every regenerated regex, by kernel evaluation), ends_nodup, work_poly, tokenize_poly for a backtracking-engine model; engine correspondence with CPython re; pump-family timing',
+            "Properties/C07.lean proves, for a list-of-successes backtracking matcher, that every regular expression extracted from the source on this run passes a syntactic unambiguity check (StarSafe) and that StarSafe implies a polynomial bound on the number of sub-match attempts for every input. PARTIAL: that CPython's sre does no more work than exhaustive backtracking of the same AST is trusted; wall-clock time, memory and the GIL are not modelled. The model is tied to /repo on every run: data (regexes, built-in selector lists, tables, class/wrapper/import/effect facts) is regenerated from the source by gen/*.py so the theorems are re-checked against it, and the hand-written model is run by the compiled Lean driver on the same generated inputs as the real library and the outputs are compared. The engine model is compared with re.match on every extracted regex, and real compile() times on 29 pump families must grow polynomially.",
+            'DESIGN.md §3 C07', NOTE_COMMON),
+    'C08': ('Lean 4 theorems (leaf functions with explicit CPython exceptions are total on parser-shaped trees; exact characterisation of when match_range raises; normalisation total) + exception-freedom sweep of all entry points on hostile trees + correspondence',
+            'Properties/C08.lean proves that the only partial primitives of the matcher model (lower-casing / parsing of type, min, max, value) succeed whenever those attributes are not sequences, characterises exactly when they raise, and that value normalisation is total for None / bytes / numbers / nested lists; all other model functions are total. The model is tied to /repo on every run: data (regexes, built-in selector lists, tables, class/wrapper/import/effect facts) is regenerated from the source by gen/*.py so the theorems are re-checked against it, and the hand-written model is run by the compiled Lean driver on the same generated inputs as the real library and the outputs are compared. Every entry point is run on generated trees with hostile string content and odd API values; any exception other than TypeError for a non-Tag target is a violation.',
+            'DESIGN.md §3 C08', NOTE_COMMON),
+    'C09': ('Lean 4 component theorems for every spelling (any escape form decodes to the same code points and scans as one identifier, gaps of whitespace/comments are skipped, keyword case is irrelevant to every consumer in the parser model, quote style irrelevant) + respelling relation evaluated on PY + parser correspondence; the end-to-end compile_spelling_invariant is stated but NOT proved',
+            'Properties/C09.lean proves, for all inputs, the lexical lemmas on which spelling-invariance rests (65 theorems). The end-to-end statement through the regex engine is kept as an unproved comment; the hand scanners are tied to the regexes by differential testing. The model is tied to /repo on every run: data (regexes, built-in selector lists, tables, class/wrapper/import/effect facts) is regenerated from the source by gen/*.py so the theorems are re-checked against it, and the hand-written model is run by the compiled Lean driver on the same generated inputs as the real library and the outputs are compared. The relation itself (all spellings of one token sequence compile to == structures and select the same elements) is evaluated on the real parser over the whole grammar with every gap filler, escape form, quote style and case mask.',
+            'DESIGN.md §3 C09', NOTE_COMMON),
+    'C10': ('Lean 4 theorems escape_scan, unescape_escape, escape_inert for every list of code points (surrogates, controls, astral) + round trip on PY for every code point + correspondence of escape / IDENTIFIER / css_unescape',
+            'Properties/C10.lean proves for every non-empty string that escape(s) followed by any non-continuing text is scanned as exactly one identifier whose unescaped value is s with NUL replaced, contains no NUL or newline, and does not reach into the following text. The empty string is a recorded finding. The model is tied to /repo on every run: data (regexes, built-in selector lists, tables, class/wrapper/import/effect facts) is regenerated from the source by gen/*.py so the theorems are re-checked against it, and the hand-written model is run by the compiled Lean driver on the same generated inputs as the real library and the outputs are compared. The round trip is also run on the real parser for every code point in six positions.',
+            'DESIGN.md §3 C10', NOTE_COMMON),
+    'C11': ('Lean 4 theorems on the matcher model (HTML names fold, XML exact, value templates exact / case-insensitive, type attribute rule, HTML-only lists never match in plain XML) + rules evaluated on five parser materialisations + correspondence',
+            'Properties/C11.lean proves the case rules for every element, selector name and value. The model is tied to /repo on every run: data (regexes, built-in selector lists, tables, class/wrapper/import/effect facts) is regenerated from the source by gen/*.py so the theorems are re-checked against it, and the hand-written model is run by the compiled Lean driver on the same generated inputs as the real library and the outputs are compared. One logical tree is materialised by html.parser, lxml, html5lib, as XHTML and XML; the rules are evaluated on the real select and the model is run on what each parser stored.',
+            'DESIGN.md §3 C11', NOTE_COMMON),
+    'C12': ("Lean 4 theorems on the matcher model (every namespace form of type and attribute selectors as an explicit find?/iff over URIs and the caller's map; document prefixes irrelevant) + independent oracle on namespaced XML/HTML5 documents + correspondence",
+            'Properties/C12.lean proves the namespace semantics for every element, prefix map and selector form. The model is tied to /repo on every run: data (regexes, built-in selector lists, tables, class/wrapper/import/effect facts) is regenerated from the source by gen/*.py so the theorems are re-checked against it, and the hand-written model is run by the compiled Lean driver on the same generated inputs as the real library and the outputs are compared. ',
+            'DESIGN.md §3 C12', NOTE_COMMON),
+    'C13': ('Lean 4 theorems (model loop = RFC 4647 3.3.2 algorithm = declarative embedding characterisation, wildcard stripping, case-insensitivity, edge rules) + exhaustive (range, tag) grid vs an RFC reference + documents with lang placements',
+            'Properties/C13.lean proves for all ranges and tags that the filter equals RFC 4647 extended filtering plus the two edge rules, that greedy matching is complete w.r.t. a declarative characterisation, and that the text-level wildcard strip equals the subtag-level one. The model is tied to /repo on every run: data (regexes, built-in selector lists, tables, class/wrapper/import/effect facts) is regenerated from the source by gen/*.py so the theorems are re-checked against it, and the hand-written model is run by the compiled Lean driver on the same generated inputs as the real library and the outputs are compared. ',
+            'DESIGN.md §3 C13', NOTE_COMMON),
+    'C14': ('PARTIAL: Lean 4 theorems noninterference (every schedule of threads without shared-slot access = running alone, by induction on the schedule) + shared_slots_empty / tree_writes_fresh_only by decide on stores regenerated from the source; controlled line-level schedules on real threads',
+            "Properties/C14.lean proves that when no step reads or writes a shared slot (only the atomic cache API) every interleaving gives each thread its sequential result, and, on data regenerated from the source, that no such store exists. PARTIAL: switches inside a source line, free-threaded builds and lru_cache's C lock are trusted. The model is tied to /repo on every run: data (regexes, built-in selector lists, tables, class/wrapper/import/effect facts) is regenerated from the source by gen/*.py so the theorems are re-checked against it, and the hand-written model is run by the compiled Lean driver on the same generated inputs as the real library and the outputs are compared. Real threads are suspended after every traced line of a compile/select while another thread runs to completion.",
+            'DESIGN.md §3 C14', NOTE_COMMON),
+    'C15': ('Lean 4 theorems: object protocol driven by class facts regenerated from the source (frozen, eq/hash/pickle shapes by decide; ops_preserve by induction), LRU cache refinement to a pure function (cache_transparent, cache_bounded, lru_spec) + object/cache histories on PY vs the model',
+            'Properties/C15.lean proves on regenerated class data that every IR class refuses setattr/delattr, compares all slots, hashes values only and pickles through its constructor arguments; that no operation sequence changes a value; and that the LRU machine returns parse(k) after any history, never exceeds its bound and is emptied by purge. The model is tied to /repo on every run: data (regexes, built-in selector lists, tables, class/wrapper/import/effect facts) is regenerated from the source by gen/*.py so the theorems are re-checked against it, and the hand-written model is run by the compiled Lean driver on the same generated inputs as the real library and the outputs are compared. cache_info() of the real cache is compared with the model after every operation of random histories with evictions.',
+            'DESIGN.md §3 C15', NOTE_COMMON),
+    'C16': ('PARTIAL: Lean 4 theorems any_order_ok / final_state_order_independent (import state machine over event lists regenerated from soupsieve and the installed bs4, by induction on the statement sequence + kernel evaluation) + exhaustive fresh-interpreter matrix',
+            'Properties/C16.lean proves that every sequence of the eight import statements succeeds and ends in the same fully initialised state on the regenerated import-time event graph. PARTIAL: import-time attribute uses inside called functions are over-approximated by a call graph; only the installed bs4 is available. The model is tied to /repo on every run: data (regexes, built-in selector lists, tables, class/wrapper/import/effect facts) is regenerated from the source by gen/*.py so the theorems are re-checked against it, and the hand-written model is run by the compiled Lean driver on the same generated inputs as the real library and the outputs are compared. Every sequence up to length 2 (3 thorough) runs in a fresh interpreter with -W error.',
+            'DESIGN.md §3 C16', NOTE_COMMON),
+    'C17': ('Lean 4 theorems about the built-in selector lists regenerated from the live module (shape facts by rfl, partition laws, definitional laws, iframe locality, dir partition) + laws evaluated on PY under three HTML parsers + correspondence',
+            'Properties/C17.lean proves the partition and definition laws for every HTML document and element on the generated IR of the thirteen built-ins and the :dir walk. The model is tied to /repo on every run: data (regexes, built-in selector lists, tables, class/wrapper/import/effect facts) is regenerated from the source by gen/*.py so the theorems are re-checked against it, and the hand-written model is run by the compiled Lean driver on the same generated inputs as the real library and the outputs are compared. ',
+            'DESIGN.md §3 C17', NOTE_COMMON),
+    'C18': ('Lean 4 theorems (validators and parse_value = first-principles calendar/grammar specification for all years; exact characterisation of the recorded week-53 finding; order = calendar order) + calendar oracle sweep + correspondence',
+            'Properties/C18.lean and C18Range.lean prove validity and ordering against an independent proleptic-Gregorian / ISO-8601 specification for every year >= 1 and every string; the week rule is proved in its exact (deviating) form with the negation witness 2019-W53 and a _partial theorem under the precise guard. The model is tied to /repo on every run: data (regexes, built-in selector lists, tables, class/wrapper/import/effect facts) is regenerated from the source by gen/*.py so the theorems are re-checked against it, and the hand-written model is run by the compiled Lean driver on the same generated inputs as the real library and the outputs are compared. ',
+            'DESIGN.md §3 C18', NOTE_COMMON),
+    'C19': ('Lean 4 theorems (the next_good skip loop over el.descendants = structural traversal; text / own text / contains / empty = structural specification; special strings never text) + structural oracle on API-built trees + correspondence',
+            'Properties/C19.lean proves for every tree with any interleaving of the seven node kinds that the text pseudo-classes see exactly the structurally defined content and that the iframe-skipping loop equals the structural walk. The model is tied to /repo on every run: data (regexes, built-in selector lists, tables, class/wrapper/import/effect facts) is regenerated from the source by gen/*.py so the theorems are re-checked against it, and the hand-written model is run by the compiled Lean driver on the same generated inputs as the real library and the outputs are compared. ',
+            'DESIGN.md §3 C19', NOTE_COMMON),
+    'C20': ('Lean 4 theorems (get_pattern_context line/col/context for every pattern and offset incl. the end; pretty terminates and round-trips modulo whitespace for every string) + independent oracle, alarm-guarded pretty runs, DEBUG equality + correspondence',
+            'Properties/C20.lean proves ctx_line, ctx_col, ctx_text for all patterns and offsets (CRLF exception stated), and for the pretty-printer termination by a decreasing measure and the whitespace round trip for every input string. The model is tied to /repo on every run: data (regexes, built-in selector lists, tables, class/wrapper/import/effect facts) is regenerated from the source by gen/*.py so the theorems are re-checked against it, and the hand-written model is run by the compiled Lean driver on the same generated inputs as the real library and the outputs are compared. ',
+            'DESIGN.md §3 C20', NOTE_COMMON),
 }
 
 REASONS_PENDING = 'check not built yet (work in progress; see DESIGN.md §3)'
